@@ -88,10 +88,10 @@ def judge_liveness(vec, res, cfg, label, consumed=None):
     return viols
 
 
-def explore_config(vec, cfg, bound, consumer=('drain',), want=('verdicts', 'liveness')):
+def explore_config(vec, cfg, bound, consumer=('drain',), want=('verdicts', 'liveness'), timer_budget=0):
     def run_one(prefix):
-        return vmp.run_equalizer(vec, prefix, dedicated=True, timeout=cfg['timeout'], recycle=cfg['recycle'], keep=cfg['keep'], consumer=consumer)
-    ex = S.explore(run_one, bound, max_execs=30000, stop_on=lambda s, res: res['horizon'] or res['deadlock'])
+        return vmp.run_equalizer(vec, prefix, dedicated=True, timeout=cfg['timeout'], recycle=cfg['recycle'], keep=cfg['keep'], consumer=consumer, timer_budget=timer_budget)
+    ex = S.explore(run_one, bound, max_execs=60000, stop_on=lambda s, res: res['horizon'] or res['deadlock'])
     stopped_early = ex['capped'] and any(r['horizon'] or r['deadlock'] for _, r in ex['results'])
     if stopped_early:
         ex['capped'] = False   # the exploration ended on a reported liveness violation, not on a budget
@@ -117,16 +117,16 @@ def explore_config(vec, cfg, bound, consumer=('drain',), want=('verdicts', 'live
                 v['schedule'] = choices
                 viols.append(v)
     if viols:   # the reported schedule must reproduce its violation
-        s2, r2 = vmp.run_equalizer(vec, viols[0]['schedule'], dedicated=True, timeout=cfg['timeout'], recycle=cfg['recycle'], keep=cfg['keep'], consumer=consumer)
+        s2, r2 = vmp.run_equalizer(vec, viols[0]['schedule'], dedicated=True, timeout=cfg['timeout'], recycle=cfg['recycle'], keep=cfg['keep'], consumer=consumer, timer_budget=timer_budget)
         if viols[0]['sig'] not in [v['sig'] for v in judge(r2)]:
             raise HarnessError('schedule did not reproduce its violation: nondeterminism not owned')
     return ex, viols, outcomes
 
 
-def replay_schedule(vec, cfg, consumer, schedule, want):
+def replay_schedule(vec, cfg, consumer, schedule, want, timer_budget=0):
     label = 'dedicated process, recycle %s, timeout %s, keep %s, consumer %s' % (cfg['recycle'], cfg['timeout'], cfg['keep'], consumer)
-    s1, r1 = vmp.run_equalizer(vec, schedule, dedicated=True, timeout=cfg['timeout'], recycle=cfg['recycle'], keep=cfg['keep'], consumer=consumer)
-    s2, r2 = vmp.run_equalizer(vec, schedule, dedicated=True, timeout=cfg['timeout'], recycle=cfg['recycle'], keep=cfg['keep'], consumer=consumer)
+    s1, r1 = vmp.run_equalizer(vec, schedule, dedicated=True, timeout=cfg['timeout'], recycle=cfg['recycle'], keep=cfg['keep'], consumer=consumer, timer_budget=timer_budget)
+    s2, r2 = vmp.run_equalizer(vec, schedule, dedicated=True, timeout=cfg['timeout'], recycle=cfg['recycle'], keep=cfg['keep'], consumer=consumer, timer_budget=timer_budget)
     if repr(r1['out']) != repr(r2['out']):
         raise HarnessError('the same schedule gave two different executions: nondeterminism not owned')
     print('comparisons yielded:', [(o['id'], o['status'], o['message'], o['playback'], o['dt']) for o in r1['out']])
